@@ -1412,6 +1412,7 @@ package flags
 //@   loop 8 invariant[C17] use(eag_elem, root, cnt_5, 0) && use(eg_nonempty, c.Group) && forall(a, 0, len(args), argWidth(args[a]) + ite(c != p.Command, 4, 0) <= aligninfo.maxLongLen)
 //@   loop 9 invariant[C17] forall(a, 0, len(args), argWidth(args[a]) + ite(c != p.Command, 4, 0) <= aligninfo.maxLongLen)
 //@   at[C17] call Parser.writeHelpOption #1: use(eag_elem, root, cnt_5, idx_6)
+//@   at[C17] call utf8.RuneCountInString #1: use(argWidth_def, arg) && use(rc_sub, strings.Repeat(" ", paddingBeforeOption), arg.Name) && use(rc_sub, strings.Repeat(" ", paddingBeforeOption) + arg.Name, ":") && utf8.RuneCountInString(argPrefix) <= argWidth(arg) + 3
 //@   at[C17] call strings.Repeat #2: use(argWidth_def, arg) && use(rc_sub, strings.Repeat(" ", paddingBeforeOption), arg.Name) && use(rc_sub, strings.Repeat(" ", paddingBeforeOption) + arg.Name, ":")
 //@   loop 6 invariant unfold(hRows(p, c, idx_6 + 1)) && unfold(hRows(p, c, 0)) && ncalls(Parser.writeHelpOption) == w0 + hChain(p, cnt_5) + hRows(p, c, idx_6)
 //@   loop 6 invariant forall(k, w0, ncalls(Parser.writeHelpOption), showable(callarg(Parser.writeHelpOption, k, 2)))
@@ -1484,16 +1485,18 @@ package flags
 
 // Subcommand completion: exactly the non-hidden subcommands of the current
 // command whose name starts with the partial word.
-//@ pure func cmdOffered(c *completion, cmd *Command, match string) bool = cmd.data != c && !cmd.Hidden && strings.HasPrefix(cmd.Name, match)
+//@ pure func cmdOffered(c *completion, cmd *Command, match string) bool = cmd.data != c && !cmd.Hidden && pfx(cmd.Name, match)
+// rankC(cmds, k): how many of the first k subcommands are offered
+//@ pure func rankC(c *completion, cmds []*Command, match string, k int) int = ite(k <= 0, 0, rankC(c, cmds, match, k-1) + ite(cmdOffered(c, cmds[k-1], match), 1, 0))
 //@ func (c *completion) completeCommands(s *parseState, match string) (r []Completion)
 //@   props C18 C04
 //@   traced
 //@   requires s != nil && s.command != nil
-//@   loop 1 invariant len(n) <= idx_1
+//@   loop 1 invariant unfold(rankC(c, s.command.commands, match, idx_1 + 1)) && unfold(rankC(c, s.command.commands, match, 0)) && len(n) == rankC(c, s.command.commands, match, idx_1)
 //@   loop 1 invariant forall(i, 0, len(n), exists(j, 0, idx_1, cmdOffered(c, s.command.commands[j], match) && n[i].Item == s.command.commands[j].Name && n[i].Description == s.command.commands[j].ShortDescription))
-//@   loop 1 invariant forall(j, 0, idx_1, cmdOffered(c, s.command.commands[j], match) ==> exists(i, 0, len(n), n[i].Item == s.command.commands[j].Name))
+//@   at call strings.HasPrefix #1: use(pfx_def, cmd.Name, match)
 //@   ensures[C18] forall(i, 0, len(r), exists(j, 0, len(s.command.commands), cmdOffered(c, s.command.commands[j], match) && r[i].Item == s.command.commands[j].Name && r[i].Description == s.command.commands[j].ShortDescription))
-//@   ensures[C18] forall(j, 0, len(s.command.commands), cmdOffered(c, s.command.commands[j], match) ==> exists(i, 0, len(r), r[i].Item == s.command.commands[j].Name))
+//@   ensures[C18] len(r) == rankC(c, s.command.commands, match, len(s.command.commands))
 //@   assigns nothing
 
 // Option-name completion: exactly the non-hidden entries of the long-name
